@@ -1099,7 +1099,7 @@ class WCS(GWCSAPIMixin):
         """
         transform = self.get_transform(from_frame, to_frame)
         if not utils.isnumerical(args[0]):
-            inp_frame = getattr(self, from_frame)
+            inp_frame = self._pipeline[self._get_frame_index(from_frame)].frame
             args = inp_frame.coordinate_to_quantity(*args)
             if not transform.uses_quantity:
                 args = utils.get_values(inp_frame.unit, *args)
@@ -1114,6 +1114,10 @@ class WCS(GWCSAPIMixin):
 
         if with_units:
             to_frame_name, to_frame_obj = self._get_frame_name(to_frame)
+            if to_frame_obj is None:
+                to_frame_obj = self._pipeline[self._get_frame_index(to_frame_name)].frame
+                if isinstance(to_frame_obj, str):
+                    to_frame_obj = None
             if to_frame_obj is not None:
                 if to_frame_obj.naxes == 1:
                     result = to_frame_obj.coordinates(result)
